@@ -69,6 +69,15 @@ void wbxml_tree_clb_wbxml_start_element(void *ctx, WBXMLTag *element, WBXMLAttri
     if (tree_ctx->error != WBXML_OK)
         return;
 
+#if defined ( WBXML_SUPPORT_SYNCML )
+    /* Have we added a CDATA section ?
+     * If so, it ends where markup starts: the new Element is a sibling
+     * of the CDATA section, not a part of it.
+     */
+    if ((tree_ctx->current != NULL) && (tree_ctx->current->type == WBXML_TREE_CDATA_NODE))
+        tree_ctx->current = tree_ctx->current->parent;
+#endif /* WBXML_SUPPORT_SYNCML */
+
     /* Add a new Node to tree */
     tree_ctx->current = wbxml_tree_add_elt_with_attrs(tree_ctx->tree,
                                                       tree_ctx->current,
@@ -186,11 +195,14 @@ void wbxml_tree_clb_wbxml_characters(void *ctx, WB_UTINY *ch, WB_ULONG start, WB
          * of </Data> element.
          */
 
-        /* Add new CDATA Node */
-        tree_ctx->current = wbxml_tree_add_cdata(tree_ctx->tree, tree_ctx->current);
-        if (tree_ctx->current == NULL) {
-            tree_ctx->error = WBXML_ERROR_INTERNAL;
-            return;
+        /* Add new CDATA Node, unless a previous content item of this <Data>
+         * already opened the CDATA section we are still in */
+        if (tree_ctx->current->type != WBXML_TREE_CDATA_NODE) {
+            tree_ctx->current = wbxml_tree_add_cdata(tree_ctx->tree, tree_ctx->current);
+            if (tree_ctx->current == NULL) {
+                tree_ctx->error = WBXML_ERROR_INTERNAL;
+                return;
+            }
         }
 
         /* Now we can add the Text Node */
